@@ -562,3 +562,35 @@ TWINS += [
     # a trusted name as a component of its own is checked on its own
     {"name": "r5-package-loader-base-split-into-two-trusted-parts", "edits": [(M, _PL_JOIN, '            path = safe_join(posixpath.dirname(package_path) or ".", posixpath.basename(package_path), path)\n')]},
 ]
+
+
+# ---- stress round 1: fresh maintainer-style refactorings (sub-agents) that tripped R14.1 at first, own variants, mutants ----
+TWINS += [
+    {'name': 's1-altsep-test-as-inner-for-loop-three-guard-clauses', 'edits': [('security.py', '        if (\n            any(sep in filename for sep in _os_alt_seps)\n            or os.path.isabs(filename)\n            # ntpath.isabs doesn\'t catch this on Python < 3.11\n            or filename.startswith("/")\n            or filename == ".."\n            or filename.startswith("../")\n        ):\n', '        for sep in _os_alt_seps:\n            if sep in filename:\n                return None\n\n        # ntpath.isabs doesn\'t catch a leading "/" on Python < 3.11\n        if os.path.isabs(filename) or filename.startswith("/"):\n            return None\n\n        if filename == ".." or filename.startswith("../"):\n')]},
+    {'name': 's1-first-segment-from-partition-bound-to-a-local', 'edits': [('security.py', '    if not directory:\n        # Ensure we end up with ./path if directory="" is given,\n        # otherwise the first untrusted part could become trusted.\n        directory = "."\n\n    parts = [directory]\n\n    for filename in pathnames:\n        if filename != "":\n            filename = posixpath.normpath(filename)\n\n        if (\n            any(sep in filename for sep in _os_alt_seps)\n            or os.path.isabs(filename)\n            # ntpath.isabs doesn\'t catch this on Python < 3.11\n            or filename.startswith("/")\n            or filename == ".."\n            or filename.startswith("../")\n', '    # Ensure we end up with ./path if directory="" is given, otherwise\n    # the first untrusted part could become trusted.\n    parts = [directory or "."]\n\n    for filename in pathnames:\n        if filename != "":\n            filename = posixpath.normpath(filename)\n\n        # After normpath any remaining ".." segments are leading ones.\n        first_segment = filename.partition("/")[0]\n\n        if (\n            any(sep in filename for sep in _os_alt_seps)\n            or os.path.isabs(filename)\n            # ntpath.isabs doesn\'t catch this on Python < 3.11\n            or filename.startswith("/")\n            or first_segment == ".."\n')]},
+    {'name': 's1-normalising-generator-helper-and-startswith-tuple', 'edits': [('security.py', 'import hashlib\n', 'import collections.abc as cabc\nimport hashlib\n'), ('security.py', 'def safe_join(directory: str, *pathnames: str) -> str | None:\n', 'def _iter_normalized(pathnames: cabc.Iterable[str]) -> cabc.Iterator[str]:\n    """Lazily yield each path component collapsed with\n    :func:`posixpath.normpath`. An empty component is passed through as\n    is, ``normpath`` would turn it into ``"."``.\n    """\n    for name in pathnames:\n        if name != "":\n            name = posixpath.normpath(name)\n\n        yield name\n\n\ndef safe_join(directory: str, *pathnames: str) -> str | None:\n'), ('security.py', '    for filename in pathnames:\n        if filename != "":\n            filename = posixpath.normpath(filename)\n\n        if (\n            any(sep in filename for sep in _os_alt_seps)\n            or os.path.isabs(filename)\n            # ntpath.isabs doesn\'t catch this on Python < 3.11\n            or filename.startswith("/")\n            or filename == ".."\n            or filename.startswith("../")\n', '    for filename in _iter_normalized(pathnames):\n        if (\n            any(sep in filename for sep in _os_alt_seps)\n            or os.path.isabs(filename)\n            # ntpath.isabs doesn\'t catch a leading "/" on Python < 3.11\n            or filename.startswith(("/", "../"))\n            or filename == ".."\n')]},
+    {'name': 's1-dotdot-as-appended-slash-prefix-break-and-for-else', 'edits': [('security.py', '            or filename == ".."\n            or filename.startswith("../")\n        ):\n            return None\n\n        parts.append(filename)\n\n    return posixpath.join(*parts)\n', '            # ".." itself or anything below it\n            or (filename + "/").startswith("../")\n        ):\n            break\n\n        parts.append(filename)\n    else:\n        # Every component was accepted.\n        return posixpath.join(*parts)\n\n    return None\n')]},
+    {'name': 's1-slots-prefilled-and-overwritten-by-enumerate-index', 'edits': [('security.py', '    parts = [directory]\n\n    for filename in pathnames:\n', '    # The untrusted components are replaced by their normalized form below.\n    parts = [directory, *pathnames]\n\n    for index, filename in enumerate(pathnames, start=1):\n'), ('security.py', '        parts.append(filename)\n', '        parts[index] = filename\n'), ('utils.py', '    # wrapper to not have to deal with paths.\n    if "_root_path" in kwargs:\n        path_str = os.path.join(kwargs["_root_path"], path_str)\n', '    # wrapper to not have to deal with paths. Joining to the empty\n    # default leaves the path as it is.\n    path_str = os.path.join(kwargs.get("_root_path", ""), path_str)\n')]},
+    {'name': 's1-normalise-pass-check-pass-then-extend', 'edits': [('security.py', '    for filename in pathnames:\n        if filename != "":\n            filename = posixpath.normpath(filename)\n\n        if (\n            any(sep in filename for sep in _os_alt_seps)\n            or os.path.isabs(filename)\n            # ntpath.isabs doesn\'t catch this on Python < 3.11\n            or filename.startswith("/")\n            or filename == ".."\n            or filename.startswith("../")\n        ):\n            return None\n\n        parts.append(filename)\n', '    cleaned = [posixpath.normpath(p) if p != "" else p for p in pathnames]\n\n    for filename in cleaned:\n        if (\n            any(sep in filename for sep in _os_alt_seps)\n            or os.path.isabs(filename)\n            or filename.startswith("/")\n            or filename == ".."\n            or filename.startswith("../")\n        ):\n            return None\n\n    parts.extend(cleaned)\n')]},
+    {'name': 's1-check-pass-then-iadd-of-the-whole-sequence', 'edits': [('security.py', '    for filename in pathnames:\n        if filename != "":\n            filename = posixpath.normpath(filename)\n\n        if (\n            any(sep in filename for sep in _os_alt_seps)\n            or os.path.isabs(filename)\n            # ntpath.isabs doesn\'t catch this on Python < 3.11\n            or filename.startswith("/")\n            or filename == ".."\n            or filename.startswith("../")\n        ):\n            return None\n\n        parts.append(filename)\n', '    cleaned = [posixpath.normpath(p) if p != "" else p for p in pathnames]\n\n    for filename in cleaned:\n        if (\n            any(sep in filename for sep in _os_alt_seps)\n            or os.path.isabs(filename)\n            or filename.startswith("/")\n            or filename == ".."\n            or filename.startswith("../")\n        ):\n            return None\n\n    parts += cleaned\n')]},
+    {'name': 's1-check-pass-then-star-star-display', 'edits': [('security.py', '    for filename in pathnames:\n        if filename != "":\n            filename = posixpath.normpath(filename)\n\n        if (\n            any(sep in filename for sep in _os_alt_seps)\n            or os.path.isabs(filename)\n            # ntpath.isabs doesn\'t catch this on Python < 3.11\n            or filename.startswith("/")\n            or filename == ".."\n            or filename.startswith("../")\n        ):\n            return None\n\n        parts.append(filename)\n', '    cleaned = [posixpath.normpath(p) if p != "" else p for p in pathnames]\n\n    for filename in cleaned:\n        if (\n            any(sep in filename for sep in _os_alt_seps)\n            or os.path.isabs(filename)\n            or filename.startswith("/")\n            or filename == ".."\n            or filename.startswith("../")\n        ):\n            return None\n\n    parts = [*parts, *cleaned]\n')]},
+    {'name': 's1-check-pass-then-list-plus-sequence', 'edits': [('security.py', '    for filename in pathnames:\n        if filename != "":\n            filename = posixpath.normpath(filename)\n\n        if (\n            any(sep in filename for sep in _os_alt_seps)\n            or os.path.isabs(filename)\n            # ntpath.isabs doesn\'t catch this on Python < 3.11\n            or filename.startswith("/")\n            or filename == ".."\n            or filename.startswith("../")\n        ):\n            return None\n\n        parts.append(filename)\n', '    cleaned = [posixpath.normpath(p) if p != "" else p for p in pathnames]\n\n    for filename in cleaned:\n        if (\n            any(sep in filename for sep in _os_alt_seps)\n            or os.path.isabs(filename)\n            or filename.startswith("/")\n            or filename == ".."\n            or filename.startswith("../")\n        ):\n            return None\n\n    parts = parts + cleaned\n')]},
+    {'name': 's1-altsep-inner-loop-negated-with-continue', 'edits': [('security.py', '        if (\n            any(sep in filename for sep in _os_alt_seps)\n            or os.path.isabs(filename)\n            # ntpath.isabs doesn\'t catch this on Python < 3.11\n            or filename.startswith("/")\n            or filename == ".."\n            or filename.startswith("../")\n        ):\n            return None\n', '        for sep in _os_alt_seps:\n            if sep not in filename:\n                continue\n            return None\n\n        if os.path.isabs(filename) or filename.startswith("/"):\n            return None\n\n        if filename == ".." or filename.startswith("../"):\n            return None\n')]},
+    {'name': 's1-first-segment-by-unpacking-partition', 'edits': [('security.py', '        if (\n            any(sep in filename for sep in _os_alt_seps)\n            or os.path.isabs(filename)\n            # ntpath.isabs doesn\'t catch this on Python < 3.11\n            or filename.startswith("/")\n            or filename == ".."\n            or filename.startswith("../")\n        ):\n            return None\n', '        first_segment, _, _ = filename.partition("/")\n\n        if (\n            any(sep in filename for sep in _os_alt_seps)\n            or os.path.isabs(filename)\n            or filename.startswith("/")\n            or first_segment == ".."\n        ):\n            return None\n')]},
+    {'name': 's1-first-segment-bound-by-walrus-in-the-test', 'edits': [('security.py', '        if (\n            any(sep in filename for sep in _os_alt_seps)\n            or os.path.isabs(filename)\n            # ntpath.isabs doesn\'t catch this on Python < 3.11\n            or filename.startswith("/")\n            or filename == ".."\n            or filename.startswith("../")\n        ):\n            return None\n', '        if (\n            any(sep in filename for sep in _os_alt_seps)\n            or os.path.isabs(filename)\n            or filename.startswith("/")\n            or (head := filename.split("/", 1)[0]) == ".."\n        ):\n            return None\n')]},
+    {'name': 's1-normalising-list-helper', 'edits': [('security.py', 'def safe_join(', 'def _normalized(names):\n    return [posixpath.normpath(n) if n else n for n in names]\n\n\ndef safe_join('), ('security.py', '    for filename in pathnames:\n        if filename != "":\n            filename = posixpath.normpath(filename)\n\n', '    for filename in _normalized(pathnames):\n')]},
+    {'name': 's1-dotdot-as-appended-slash-prefix', 'edits': [('security.py', '            or filename == ".."\n            or filename.startswith("../")\n', '            or (filename + "/").startswith("../")\n')]},
+]
+MUTANTS += [
+    {'name': 's1-extend-after-check-of-a-slice', 'expect': 'R14.1', 'edits': [('security.py', '    for filename in pathnames:\n        if filename != "":\n            filename = posixpath.normpath(filename)\n\n        if (\n            any(sep in filename for sep in _os_alt_seps)\n            or os.path.isabs(filename)\n            # ntpath.isabs doesn\'t catch this on Python < 3.11\n            or filename.startswith("/")\n            or filename == ".."\n            or filename.startswith("../")\n        ):\n            return None\n\n        parts.append(filename)\n', '    cleaned = [posixpath.normpath(p) if p != "" else p for p in pathnames]\n\n    for filename in cleaned[1:]:\n        if (\n            any(sep in filename for sep in _os_alt_seps)\n            or os.path.isabs(filename)\n            or filename.startswith("/")\n            or filename == ".."\n            or filename.startswith("../")\n        ):\n            return None\n\n    parts.extend(cleaned)\n')]},
+    {'name': 's1-extend-after-check-without-dotdot', 'expect': 'R14.1', 'edits': [('security.py', '    for filename in pathnames:\n        if filename != "":\n            filename = posixpath.normpath(filename)\n\n        if (\n            any(sep in filename for sep in _os_alt_seps)\n            or os.path.isabs(filename)\n            # ntpath.isabs doesn\'t catch this on Python < 3.11\n            or filename.startswith("/")\n            or filename == ".."\n            or filename.startswith("../")\n        ):\n            return None\n\n        parts.append(filename)\n', '    cleaned = [posixpath.normpath(p) if p != "" else p for p in pathnames]\n\n    for filename in cleaned:\n        if (\n            any(sep in filename for sep in _os_alt_seps)\n            or os.path.isabs(filename)\n            or filename.startswith("/")\n            or filename.startswith("../")\n        ):\n            return None\n\n    parts.extend(cleaned)\n')]},
+    {'name': 's1-extend-before-check-that-only-breaks', 'expect': 'R14.1', 'edits': [('security.py', '    for filename in pathnames:\n        if filename != "":\n            filename = posixpath.normpath(filename)\n\n        if (\n            any(sep in filename for sep in _os_alt_seps)\n            or os.path.isabs(filename)\n            # ntpath.isabs doesn\'t catch this on Python < 3.11\n            or filename.startswith("/")\n            or filename == ".."\n            or filename.startswith("../")\n        ):\n            return None\n\n        parts.append(filename)\n', '    cleaned = [posixpath.normpath(p) if p != "" else p for p in pathnames]\n\n    parts.extend(cleaned)\n    for filename in cleaned:\n        if (\n            any(sep in filename for sep in _os_alt_seps)\n            or os.path.isabs(filename)\n            or filename.startswith("/")\n            or filename == ".."\n            or filename.startswith("../")\n        ):\n            break\n\n')]},
+    {'name': 's1-altsep-inner-loop-breaks-instead-of-refusing', 'expect': 'R14.1', 'edits': [('security.py', '        if (\n            any(sep in filename for sep in _os_alt_seps)\n            or os.path.isabs(filename)\n            # ntpath.isabs doesn\'t catch this on Python < 3.11\n            or filename.startswith("/")\n            or filename == ".."\n            or filename.startswith("../")\n        ):\n            return None\n', '        for sep in _os_alt_seps:\n            if sep in filename:\n                break\n\n        if os.path.isabs(filename) or filename.startswith("/"):\n            return None\n\n        if filename == ".." or filename.startswith("../"):\n            return None\n')]},
+    {'name': 's1-first-segment-taken-before-normpath', 'expect': 'R14.1', 'edits': [('security.py', '        if filename != "":\n            filename = posixpath.normpath(filename)\n\n        if (\n            any(sep in filename for sep in _os_alt_seps)\n            or os.path.isabs(filename)\n            # ntpath.isabs doesn\'t catch this on Python < 3.11\n            or filename.startswith("/")\n            or filename == ".."\n            or filename.startswith("../")\n        ):\n            return None\n', '        first_segment = filename.partition("/")[0]\n\n        if filename != "":\n            filename = posixpath.normpath(filename)\n\n        if (\n            any(sep in filename for sep in _os_alt_seps)\n            or os.path.isabs(filename)\n            or filename.startswith("/")\n            or first_segment == ".."\n        ):\n            return None\n')]},
+    {'name': 's1-last-segment-instead-of-first', 'expect': 'R14.1', 'edits': [('security.py', '        if (\n            any(sep in filename for sep in _os_alt_seps)\n            or os.path.isabs(filename)\n            # ntpath.isabs doesn\'t catch this on Python < 3.11\n            or filename.startswith("/")\n            or filename == ".."\n            or filename.startswith("../")\n        ):\n            return None\n', '        first_segment = filename.rpartition("/")[2]\n\n        if (\n            any(sep in filename for sep in _os_alt_seps)\n            or os.path.isabs(filename)\n            or filename.startswith("/")\n            or first_segment == ".."\n        ):\n            return None\n')]},
+    {'name': 's1-slot-overwritten-with-prefixed-value', 'expect': 'R14.1', 'edits': [('security.py', '    parts = [directory]\n\n    for filename in pathnames:\n', '    parts = [directory, *pathnames]\n\n    for index, filename in enumerate(pathnames, start=1):\n'), ('security.py', '        parts.append(filename)\n', '        parts[index] = "../" + filename\n')]},
+    {'name': 's1-slot-zero-overwritten-by-component', 'expect': 'R14.1', 'edits': [('security.py', '    parts = [directory]\n\n    for filename in pathnames:\n', '    parts = [directory, *pathnames]\n\n    for index, filename in enumerate(pathnames, start=1):\n'), ('security.py', '        parts.append(filename)\n', '        parts[0] = filename\n')]},
+    {'name': 's1-generator-helper-yields-the-raw-name', 'expect': 'R14.1', 'edits': [('security.py', 'def safe_join(', 'def _iter_normalized(pathnames):\n    for name in pathnames:\n        if name != "":\n            clean = posixpath.normpath(name)\n\n        yield name\n\n\ndef safe_join('), ('security.py', '    for filename in pathnames:\n        if filename != "":\n            filename = posixpath.normpath(filename)\n\n', '    for filename in _iter_normalized(pathnames):\n')]},
+    {'name': 's1-list-helper-drops-last-and-joins-it-raw', 'expect': 'R14.1', 'edits': [('security.py', 'def safe_join(', 'def _normalized(names):\n    return [posixpath.normpath(n) if n else n for n in names[:-1]]\n\n\ndef safe_join('), ('security.py', '    for filename in pathnames:\n        if filename != "":\n            filename = posixpath.normpath(filename)\n\n', '    for filename in _normalized(pathnames):\n'), ('security.py', '    return posixpath.join(*parts)', '    return posixpath.join(*parts, *pathnames[-1:])')]},
+    {'name': 's1-appended-slash-prefix-of-three-dots', 'expect': 'R14.1', 'edits': [('security.py', '            or filename == ".."\n            or filename.startswith("../")\n', '            or (filename + "/").startswith(".../")\n')]},
+]
